@@ -388,6 +388,17 @@ class Planner:
                 return self.call("ufl.as_tensor", self.ref(ai2), ["t", self.ref(i)])
             return a
         if k == 13:
+            if not (len(sh) == 2 and sh[0] == sh[1]):
+                # make a square matrix from a vector-valued terminal
+                vec = [t for t in M["terms"] if len(self.shape(t)) == 1 and self.shape(t)[0] == g]
+                if not vec:
+                    return a
+                v_ = r.choice(vec)
+                a = self.call("ufl.grad", self.ref(v_)) if r.random() < 0.6 else self.call("ufl.outer", self.ref(v_), self.ref(v_))
+                if a is None:
+                    return None
+                A = self.ref(a)
+                sh = self.shape(a)
             if len(sh) == 2 and sh[0] == sh[1]:
                 fs = ["tr", "dev", "sym", "skew", "transpose", "det", "inv", "cofac", "diag"] if sh[0] <= 3 else ["tr", "sym", "transpose"]
                 return self.call("ufl." + r.choice(fs), A)
@@ -1028,7 +1039,10 @@ class Planner:
             "pickle",
         ]
         if rank == 2:
-            choices += ["adjoint", "action", "lhs", "rhs", "system"]
+            choices += ["adjoint", "action", "lhs", "rhs", "system", "energy_norm", "form_call"]
+        if rank == 1:
+            choices += ["form_call"]
+        choices += ["functional", "form_call_coefs"]
         if rank == 1:
             choices += ["rhs", "lhs", "action1"]
         if rank >= 1:
@@ -1151,8 +1165,30 @@ class Planner:
             return self.call("ufl.action", F, kind="form", keep_failed=kf)
         if c == "action1":
             return self.call("ufl.action", F, kind="form", keep_failed=kf)
-        if c in ("lhs", "rhs"):
+        if c in ("lhs", "rhs", "functional"):
             return self.call("ufl." + c, F, kind="form", keep_failed=kf)
+        if c == "energy_norm":
+            if r.random() < 0.5:
+                return self.call("ufl.energy_norm", F, kind="form", keep_failed=kf)
+            w = self.call("ufl.Coefficient", self.ref(M["V"]), kind="coef")
+            return self.call("ufl.energy_norm", F, self.ref(w), kind="form", keep_failed=kf) if w is not None else None
+        if c == "form_call":
+            ws = [self.call("ufl.Coefficient", self.ref(M["V"]), kind="coef") for _ in range(rank)]
+            if any(w is None for w in ws):
+                return None
+            out = self.new()
+            if self.emit(["meth", out, F, "__call__", [self.ref(w) for w in ws]], keep_failed=kf, kind="form"):
+                return out
+            return None
+        if c == "form_call_coefs" and co:
+            u = r.choice(co)
+            w = self.call("ufl.Coefficient", self.ref(self._space_of(u)), kind="coef")
+            if w is None:
+                return None
+            out = self.new()
+            if self.emit(["meth", out, F, "__call__", [], {"coefficients": ["d", [[self.ref(u), self.ref(w)]]]}], keep_failed=kf, kind="form"):
+                return out
+            return None
         if c == "system":
             out = self.new()
             if not self.emit(["call", out, "ufl.system", [F]], keep_failed=kf, kind="tuple"):
